@@ -34,6 +34,7 @@ TRAIN_FILES = ("vaporetto/src/trainer.rs", "vaporetto/src/tag_trainer.rs")
 
 def run(chk):
     w = C.world_for(chk)
+    c06.r068(chk, w)
     for rid, txt in (("R11.1", "no unguarded unwrap of a data-dependent lookup in the trainers"), ("R11.2", "= R06.4 + R09.1"),
                      ("R11.3", "quantisation constants, shared multiplier, non-zero divisor"), ("R11.4", "error discipline in training")):
         chk.rule(rid, txt)
